@@ -75,25 +75,7 @@ class C05Spec(c01.C01Spec):
         w.probe('quiet_phase_reached')
 
         def round_():
-            first = True
-            for h in w.hosts:
-                if h.node is not None:
-                    apply([period if first else 0.0, 'tick', h.idx])
-                    first = False
-            for h in w.hosts:
-                while h.forkemu.pending_children():
-                    apply([0.0, 'child', h.idx])
-            for cid in list(w.net.pending):
-                c = w.net.pending.get(cid)
-                if c is None:
-                    continue
-                apply([0.0, 'conn', cid, 'ok' if (c.shost is not None and (c.shost, c.port) in w.net.listeners) else 'refuse'])
-            for _ in range(4):
-                live = w.net.live_pipes()
-                if not live:
-                    break
-                for pid in live:
-                    apply([0.0, 'dlv', pid, 0])
+            quiet_round(w, apply, period)
 
         def converged():
             leaders = [h for h in w.hosts if h.node is not None and not h.readonly and h.node._isLeader()]
@@ -109,18 +91,33 @@ class C05Spec(c01.C01Spec):
                     continue
                 if n.raftLastApplied != L.raftLastApplied or n.raftLastApplied < top:
                     return False
+                if n is not L:
+                    # "exactly one leader": everybody is in the leader's term, follows it and is connected to it
+                    if n.raftCurrentTerm != L.raftCurrentTerm or priv(n, 'SyncObj', 'raftState') != 0:
+                        return False
+                    if n._getLeader() != L.selfNode or not n.isNodeConnected(L.selfNode):
+                        return False
             return True
 
         apply([0.0, 'heal'])
         sch.held = []
         ok = False
+        # "one leader" has to be stable: it must hold for two election timeouts in a row (right after a
+        # reconnect a follower's election timer may still be about to fire, which is legitimate)
+        stable_for = 2.0 * cfg['conf']['raftMaxTimeout']
+        since = None
         while w.T - t_start < B:
             round_()
             if orc.violations and any(v.inv in self.invariants for v in orc.violations):
                 return
             if converged():
-                ok = True
-                break
+                if since is None:
+                    since = w.T
+                if w.T - since >= stable_for:
+                    ok = True
+                    break
+            else:
+                since = None
         if not ok:
             orc.flag('no_convergence', 'no single leader with all replicas caught up within %.1f s of quiet time' % B, dict(wedge=wedge(w)))
             return
